@@ -1196,7 +1196,10 @@ def aexpr(tag, reads, arg):
     return f"(AFn {cstr(tag)} {e})"
 
 
-def prog_to_coq(prog):
+def prog_to_coq(prog, counter=None):
+    """conditions get site-indexed atoms (c0, c1, ...) so that every branch point can be interpreted
+    independently by `truth`"""
+    counter = counter if counter is not None else [0]
     items = []
     for st in prog:
         if st[0] == "obs":
@@ -1206,5 +1209,7 @@ def prog_to_coq(prog):
         elif st[0] == "mut":
             items.append(f"SMutate {cstr(st[1])} {aexpr('f', st[2], st[3])}")
         else:
-            items.append(f"SIf {aexpr('c', st[1], st[2])} {prog_to_coq(st[3])} {prog_to_coq(st[4])}")
+            tag = f"c{counter[0]}"
+            counter[0] += 1
+            items.append(f"SIf {aexpr(tag, st[1], st[2])} {prog_to_coq(st[3], counter)} {prog_to_coq(st[4], counter)}")
     return "[" + "; ".join(items) + "]"
